@@ -9,7 +9,8 @@ CHECK = dict(
          "deletion, deepcopy, copy-on-write helpers and in-place with/reset/update/transform the class-level default "
          "objects are unchanged and referenced by no other object) and C08_inplace_confined_to_receiver (an assignment, "
          "deletion or attribute-level helper called with _inplace=True, reset/transform(_inplace=True), update(_inplace=True) "
-         "without replacement value writes no pre-existing cell other than the receiver's own, whatever the outcome) are "
+         "without replacement value writes no pre-existing cell other than the receiver's own, whatever the outcome) and "
+         "C08_inplace_element_confined (element helpers: receiver cell and the collection object of the attribute only) are "
          "proved in Coq. The final-heap form of "
          "C08_reset_fresh and peer disjointness under nested in-place mutation are partial (see docs/C08.md). The "
          "correspondence runs histories mixing construction, in-place mutation, del / reset_<a> / reset and fresh "
